@@ -17,6 +17,8 @@ pub enum FaultKind {
     FlipData,
     FlipTag,
     CutIn,
+    /// truncation exactly in front of chunk k (the stream ends right after the tag of chunk k-1)
+    CutBefore,
 }
 
 #[derive(Clone, Copy, Debug, Serialize, Deserialize, PartialEq, Eq, Hash)]
@@ -76,6 +78,9 @@ fn faults_for_all_chunks(nchunks: usize, offs: &[i64]) -> Vec<Fault> {
         v.push(Fault { kind: FaultKind::CutIn, chunk: c, off: 1, bit: 0 });
         v.push(Fault { kind: FaultKind::CutIn, chunk: c, off: -1, bit: 0 });
         v.push(Fault { kind: FaultKind::CutIn, chunk: c, off: 40, bit: 0 });
+        if c > 0 {
+            v.push(Fault { kind: FaultKind::CutBefore, chunk: c, off: 0, bit: 0 });
+        }
     }
     v
 }
@@ -189,6 +194,9 @@ fn apply_fault(pr: &Prepared, chunks: &[(usize, usize)], f: &Fault) -> Option<(V
             }
             raw[start + dlen + o as usize] ^= 1 << (f.bit % 8);
         }
+        FaultKind::CutBefore => {
+            raw.truncate(start);
+        }
         FaultKind::CutIn => {
             let total = (dlen + 16) as i64;
             let o = if f.off < 0 { total + f.off } else { f.off };
@@ -283,7 +291,8 @@ pub fn run_case(ctx: &mut Ctx, c: &Case) {
         }
         let scen = || json!({"case": {"prog": p, "faults": [f]}, "k": k.name(), "facts": xlate::facts(p, &k)});
         let ub = upper_bound(&pr, &k, &enc_plain, d.comp.as_ref(), ci);
-        let run = |mode: Mode, rng: &mut Rng| guarded(|| drv::repair_and_read(drv::ThrottledSrc::new(&alt, Sched::All), &pr.sks, mode, rng));
+        let cap = 4 * (pr.raw.len() + pr.expected.values().map(Vec::len).sum::<usize>()) + (1 << 20);
+        let run = |mode: Mode, rng: &mut Rng| guarded(|| drv::repair_and_read_capped(drv::ThrottledSrc::new(&alt, Sched::All), &pr.sks, mode, rng, cap));
         let auth = run(Mode::Auth, &mut rng);
         let unauth = run(Mode::Unauth, &mut rng);
         let sigsuffix = format!("{kclass}:{kind}:layers{}", p.layers);
@@ -292,6 +301,10 @@ pub fn run_case(ctx: &mut Ctx, c: &Case) {
         let k0sig = format!("chunk0-served-unauthenticated:{kind}:layers{}", p.layers);
         let clause_sig = |clause: &str| if ci == 0 { k0sig.clone() } else { format!("{clause}:{sigsuffix}") };
         let auth_files = match auth {
+            Err((loc, msg)) if loc == "loops-without-bound" => {
+                ctx.violation("C04", &clause_sig("auth-repair-does-not-end"), scen(), json!({"message": msg}));
+                continue;
+            }
             Err((loc, msg)) => {
                 ctx.count("outcome:auth:panic");
                 ctx.violation("C08", &format!("panic:{loc}:{}", crate::ctx::msg_class(&msg)), scen(), json!({"panic": msg, "during": "authenticated repair of a corrupted archive"}));
@@ -299,8 +312,11 @@ pub fn run_case(ctx: &mut Ctx, c: &Case) {
             }
             Ok(Err(e)) => {
                 ctx.count("outcome:auth:error");
-                // a refusal / error returns no data: nothing unauthenticated was used
-                let _ = e;
+                if e.contains("HARNESS-OUTPUT-CAP") {
+                    // repair keeps writing: whatever it writes beyond the input cannot be "contiguous data from the start"
+                    ctx.violation("C04", &clause_sig("auth-output-unbounded"), scen(), json!({"error": e, "failed_chunk": ci, "chunks": nch}));
+                }
+                // otherwise a refusal / error returns no data: nothing unauthenticated was used
                 BTreeMap::new()
             }
             Ok(Ok((_st, files))) => {
